@@ -5,7 +5,7 @@ use crate::s_ref::*;
 use crate::s_val::*;
 use crate::tcommon::{err, Payload};
 use another_rxrust::prelude::*;
-use rxverif_rt::exec::{payload_to_string, set_monitor_mode, SelfDeadlock};
+use rxverif_rt::exec::{monitor_reset_ops, payload_to_string, set_monitor_mode, Livelock, SelfDeadlock};
 use std::panic::{catch_unwind, AssertUnwindSafe};
 use std::sync::atomic::{AtomicUsize, Ordering};
 use std::sync::{Arc, Mutex};
@@ -360,6 +360,7 @@ pub struct Trace {
   pub err_addrs: Vec<(i64, usize)>,
   pub panic: Option<String>,
   pub self_deadlock: Option<String>,
+  pub livelock: Option<String>,
   pub hit_cap: bool,
 }
 
@@ -395,6 +396,9 @@ impl Trace {
     }
     if let Some(p) = &self.self_deadlock {
       s.push_str(&format!("SELF-DEADLOCK({}) ", p));
+    }
+    if let Some(p) = &self.livelock {
+      s.push_str(&format!("LIVELOCK({}) ", p));
     }
     s
   }
@@ -435,6 +439,7 @@ pub fn run_real(case: &Case, opts: &RunOpts) -> Trace {
   let src_alive = Arc::new(Mutex::new(Vec::<Vec<Vec<bool>>>::new()));
   let held = Arc::new(Mutex::new(Vec::<Vec<usize>>::new()));
   set_monitor_mode(true);
+  monitor_reset_ops();
   let r = catch_unwind(AssertUnwindSafe(|| {
     let env = Env {
       srcs: srcs.iter().zip(case.srcs.iter()).map(|(s, k)| s.observable(k)).collect(),
@@ -513,6 +518,8 @@ pub fn run_real(case: &Case, opts: &RunOpts) -> Trace {
   if let Err(p) = r {
     if let Some(sd) = p.downcast_ref::<SelfDeadlock>() {
       tr.self_deadlock = Some(sd.what.clone());
+    } else if let Some(l) = p.downcast_ref::<Livelock>() {
+      tr.livelock = Some(format!("more than {} lock operations in one single-threaded run: a loop keeps spinning", l.ops));
     } else {
       tr.panic = Some(payload_to_string(&*p));
     }
@@ -527,7 +534,7 @@ pub fn run_real(case: &Case, opts: &RunOpts) -> Trace {
   for s in &srcs {
     tr.err_addrs.extend(s.err_addrs.lock().unwrap().iter().cloned());
   }
-  if opts.check_tokens && tr.panic.is_none() && tr.self_deadlock.is_none() {
+  if opts.check_tokens && tr.panic.is_none() && tr.self_deadlock.is_none() && tr.livelock.is_none() {
     // drop everything the caller holds: sources (and the observers they were handed),
     // inner subscriptions, the recorder's log stays (it holds no tokens)
     // inner observables (windows, groups) are subscriptions of their own: the
